@@ -295,4 +295,49 @@ theorem vwp_sublist_first_last (imin mpts : Nat) (cs : List Pt) (eps : Rat) (tre
         rw [hcs, List.zipIdx_append, List.filterMap_append]
         simp [List.zipIdx_cons, e1']
 
+/-- [T] `simplify_vw_preserve` never shrinks a ring (or line) below `INITIAL_MIN` coordinates
+(four for polygon rings, two for line strings): `counter` is the number of live vertices and the
+loop stops before it would drop below `INITIAL_MIN`; shorter inputs come back unchanged. -/
+theorem vwp_min_size (imin mpts : Nat) (cs : List Pt) (eps : Rat) (tree : List Seg)
+    (out : List Pt) (tree' : List Seg)
+    (h : visvalingamPreserve imin mpts cs eps tree = some (out, tree')) :
+    min imin cs.length ≤ out.length := by
+  unfold visvalingamPreserve at h
+  split at h
+  · simp only [Option.some.injEq, Prod.mk.injEq] at h
+    rw [← h.1]; exact Nat.min_le_right _ _
+  · rename_i hc
+    split at h
+    · exact absurd h (by simp)
+    · rename_i adj tr hloop
+      simp only [Option.some.injEq, Prod.mk.injEq] at h
+      have hn3 : 3 ≤ cs.length := by omega
+      have hcount := vwpLoop_count cs eps cs.length imin mpts _ _ _ _ _ adj tr
+        (adjInit_inv _ hn3) (heapFrom_allP (initScores_allP cs)) (liveCount_init _).symm hloop
+      rw [← h.1, keep_length adj cs 0, ← List.range_eq_range']
+      exact hcount
+
+/-- [T] Polygon rings under `simplify_vw_preserve` (`INITIAL_MIN = 4`): a closed ring stays
+closed (`Polygon::new` adds nothing) and never falls below four coordinates. -/
+theorem vwp_ring (mpts : Nat) (r : List Pt) (eps : Rat) (tree : List Seg) (out : List Pt)
+    (tree' : List Seg) (hc : SM.isClosed r = true)
+    (h : visvalingamPreserve 4 mpts r eps tree = some (out, tree')) :
+    SM.close out = out ∧ (4 ≤ r.length → 4 ≤ out.length) := by
+  obtain ⟨_, h1, h2, _⟩ := vwp_sublist_first_last 4 mpts r eps tree out tree' h
+  have hm := vwp_min_size 4 mpts r eps tree out tree' h
+  constructor
+  · have : SM.isClosed out = true := by
+      simp only [SM.isClosed, decide_eq_true_eq] at hc ⊢
+      rw [h1, h2, hc]
+    simp [SM.close, this]
+  · intro h4; omega
+
+/-- non-vacuity: the hypothesis of the `vwp_*` theorems is satisfiable on a concrete ring that
+is actually simplified (six coordinates in, four out, as the real code returns) -/
+example : (visvalingamPreserve 4 5
+    [⟨0, 0⟩, ⟨4, 0⟩, ⟨4, 4⟩, ⟨2, 5⟩, ⟨0, 4⟩, ⟨0, 0⟩] 100
+    (linesOf [⟨0, 0⟩, ⟨4, 0⟩, ⟨4, 4⟩, ⟨2, 5⟩, ⟨0, 4⟩, ⟨0, 0⟩])).map (·.1) =
+      some [⟨0, 0⟩, ⟨4, 4⟩, ⟨0, 4⟩, ⟨0, 0⟩] := by
+  decide +kernel
+
 end Geo.Proofs.C09
